@@ -61,6 +61,7 @@ def run(chk):
     OFFW = "eemeter.sufficiency_criteria.offcycle_reads_in_billing_monthly_data"
     bad_keep: Dict[str, List[str]] = {}
     bad_warn: Dict[str, List[str]] = {}
+    spring_bad: Dict[str, List[int]] = {}
     n_bc = 0
     for o in billing_clean_outcomes(chk):
         n_bc += 1
@@ -69,6 +70,11 @@ def run(chk):
         want = lo <= d <= hi
         if "raises" in o or "returns" in o:
             bad_keep.setdefault(iv, []).append(f"a period of {d} days: {o.get('raises') or o.get('returns')}")
+            continue
+        if o.get("span") == "spring":
+            # the same read calendar across the spring clock change: d calendar days last one hour less
+            if want != bool(o["kept"]):
+                spring_bad.setdefault(iv, []).append(d)
             continue
         if want and not o["kept"]:
             bad_keep.setdefault(iv, []).append(f"a period of {d} days is {'dropped' if not o['present'] else 'blanked'} (it is within {lo}..{hi} days)")
@@ -80,6 +86,13 @@ def run(chk):
         r1.require(iv not in bad_keep, f"{cb.key}|{iv}|keep", cb.where(), f"clean_billing_data ({iv}): periods kept must be {lo} <= days <= {hi}; interpreted: {bad_keep.get(iv, [])[:3]}",
                    sample={"interval": iv, "keep": [lo, hi]})
         r1.require(iv not in bad_warn, f"{cb.key}|{iv}|warn", cb.where(), f"clean_billing_data ({iv}): the off-cycle warning must fire exactly on the complement (days > {hi} or days < {lo}); interpreted: {bad_warn.get(iv, [])[:3]}")
+    for iv, ds_ in sorted(spring_bad.items()):
+        lo, hi = spec[iv]
+        r1.require(False, f"{cb.key}|{iv}|keep|across-spring-forward:{','.join(map(str, sorted(ds_)))}", cb.where(),
+                   f"clean_billing_data ({iv}): read dates are local midnights, so a period of d calendar days that contains the spring-forward day lasts one hour less; measured by the whole-day "
+                   f"component of the elapsed time it counts as d - 1 days: periods of {sorted(ds_)} days are judged the wrong way round ({lo} <= days <= {hi} is valid) - a {lo}-day bill is dropped as "
+                   f"off-cycle and its usage lost, a {hi + 1}-day one is kept; the same read calendar in UTC is judged correctly",
+                   sample={"interval": iv, "misjudged_period_lengths": sorted(ds_)})
     r1.inst(f"{cb.key}|period-length[{n_bc}]", {"interpreted_periods": n_bc})
     # downsample 50 % rule
     ds = chk.repo.func(DPU, "downsample_and_clean_daily_data")
